@@ -398,6 +398,27 @@ def check_phrases(rec, rng, allkw):
                                   key='phrase' + ph)
 
 
+def check_phrase_suffix(rec, rng):
+    """A multi-word keyword directly followed by a word character is not
+    that keyword (its last word is a longer word)."""
+    for ph in PHRASES:
+        for suffix in ('x', '_1', '9'):
+            spelled = rng.choice([ph, ph.lower()]) + suffix
+            text = rng.choice(['', ' ', '(']) + spelled + ' '
+            rec.case()
+            rec.monitor('non_keyword_is_name')
+            toks = list(lexer.tokenize(text))
+            for tt, v in toks:
+                if ' '.join(v.upper().split()) == ph and ' ' in ph:
+                    rec.violation('phrase-suffix', {'text': text,
+                                                    'word': spelled, 'L': '',
+                                                    'R': '', 'want': 'split'},
+                                  'in %r the keyword %r is lexed as a token '
+                                  'although a word character follows'
+                                  % (text, ph), key='suffix' + ph)
+                    break
+
+
 def check_nonword(rec, rng, allkw):
     for _ in range(50):
         w = rng.choice('abcdefghijklmnopqrstuvwxyzÄé_') + ''.join(
@@ -442,6 +463,7 @@ def shard(ctx):
     if ctx.shard % 4 == 0:
         check_fused(rec, rng, allkw)
         check_phrases(rec, rng, allkw)
+        check_phrase_suffix(rec, rng)
     n = 0
     while ctx.running():
         n += 1
